@@ -22,6 +22,29 @@ Proof.
 Qed.
 Print Assumptions C13_invalid_contribution_rejected.
 
+(* (a') ... and they reject nothing else: a contribution dealt honestly (the share is the polynomial's value
+   at the receiver's identifier, the vector has threshold entries) is accepted on either side of a swap. *)
+Theorem C13_valid_contribution_accepted :
+  (forall c n acct sender poly g,
+     gfind acct (nd_gens n) = Some g -> poly <> [] -> List.length poly = g_thr g ->
+     exists n', on_contribute c n acct sender (horner poly (idz (nd_id n))) poly
+                = DOk (n', (horner (g_poly g) (idz sender), g_poly g))) /\
+  (forall c n acct peer poly g,
+     gfind acct (nd_gens n) = Some g -> poly <> [] -> List.length poly = g_thr g ->
+     afind N.eqb peer (g_shares g) = None ->
+     exists n', accept_reply c n acct peer (horner poly (idz (nd_id n))) poly = DOk n').
+Proof. split; [exact honest_contribution_accepted|exact honest_reply_accepted]. Qed.
+Print Assumptions C13_valid_contribution_accepted.
+
+(* (a'') the prepare phase never fails for a name nobody holds a generation for: it fails only when a
+   participant is unreachable or already has one (C17) *)
+Theorem C13_prepare_succeeds_when_fresh :
+  forall acct thr parts poly todo cl,
+    NoDup todo ->
+    (forall p, In p todo -> exists n, cfind p cl = Some n /\ gfind acct (nd_gens n) = None) ->
+    fst (prepare_all acct thr parts poly todo cl) = true.
+Proof. exact prepare_all_fresh. Qed.
+
 (* (b) The network nt may lose (or answer by an error) any prepare or execute message and lose or
    alter any contribution in flight.  If the exchange does not complete - a prepare or an execute
    message does not get through, a participant refuses to prepare, or any swap fails (a lost message,
